@@ -312,7 +312,7 @@ func runC14(o *opts) (*summary, error) {
 
 	// ---- reject / parse side: texts --------------------------------------------------------------
 	dates := []string{"", "2023-02-30", "2023-13-01", "2023-00-10", "2023-01-00", "2023-01-32", "2023-04-31", "2024-02-29", "2023-02-29", "1900-02-29", "2000-02-29",
-		"2023-1-1", "20230101", "2023-01-01 ", " 2023-01-01", "2023/01/01", "23-01-01", "2023-01-01T00:00:00Z", "abcd-ef-gh", "9999-12-31", "0001-01-02", "0000-01-01", "2023-12-31", "2023-10-31"}
+		"2023-1-1", "20230101", "2023-01-01 ", " 2023-01-01", "2023/01/01", "23-01-01", "2023-01-01T00:00:00Z", "abcd-ef-gh", "+023-01-01", "2023-+1-01", "2023-01-+1", "2023-01- 1", "2023- 1-01", "-023-01-01", "2023-01-0x", "２０２３-01-01", "9999-12-31", "0001-01-02", "0000-01-01", "2023-12-31", "2023-10-31"}
 	for i := 0; i < n; i++ {
 		dates = append(dates, fmt.Sprintf("%04d-%02d-%02d", 1+rng.Intn(9999), rng.Intn(15), rng.Intn(34)))
 	}
@@ -356,7 +356,8 @@ func runC14(o *opts) (*summary, error) {
 			return projDate(v.To), nil
 		}), "text-card-date")
 	}
-	hh := []string{"", "24:00", "24:01", "23:60", "00:60", "7:30", "07:3", "0730", "07:30:00", " 07:30", "07:30 ", "ab:cd", "-1:30", "12:5x"}
+	hh := []string{"", "24:00", "24:01", "23:60", "00:60", "7:30", "07:3", "0730", "07:30:00", " 07:30", "07:30 ", "ab:cd", "-1:30", "12:5x",
+		"+7:30", "-0:30", "07:+5", "07:-0", " 7:30", "07: 5", "0x:30", "07:3x", "+0:00", "2 :00"}
 	for h := 0; h < 30; h++ {
 		for m := 0; m < 70; m++ {
 			if thorough || (h+m)%3 == 0 || m >= 58 || h >= 23 {
@@ -380,7 +381,9 @@ func runC14(o *opts) (*summary, error) {
 			return projHHmm(v), err
 		}), "text-hhmm")
 	}
-	clocks := []string{"", "24:00:00", "23:59:60", "23:60:00", "7:05:09", "07:05", "07:05:09 ", "ab:cd:ef"}
+	clocks := []string{"", "24:00:00", "23:59:60", "23:60:00", "7:05:09", "07:05", "07:05:09 ", "ab:cd:ef",
+		// (fields of the right width that are no two digits: a sign, a blank, a letter)
+		"+1:02:03", "12:+4:05", "12:34:-0", "-0:00:00", "-1:02:03", " 1:02:03", "12: 4:05", "12:34: 5", "1x:02:03", "12:34:5x", "0x:00:00", "１２:34:56"}
 	for i := 0; i < 3*n; i++ {
 		clocks = append(clocks, fmt.Sprintf("%02d:%02d:%02d", rng.Intn(27), rng.Intn(64), rng.Intn(64)))
 	}
